@@ -35,7 +35,7 @@ CHECKS.update({
                "Lean 4 proof by induction over the message list + decide over the regenerated 256-entry tables + differential correspondence of covering interleavings", "6/C03"),
     "C10": chk("Proof. run_refines (buffered interpreter = list-consuming specification for every program and reader), chunk_independent, never_overreads, consumes_exactly / decode_consumes_exactly (success ⇒ exactly header + data + 2 bytes consumed and pulled, under any read schedule), decode_ignores_tail, chained_eq_chain_over_bytes (DecodeChained = decoding file after file over the byte list), chained_concat (the chain over a concatenation of valid files is the files decoded one by one), chained_clean_end." + CORR,
                "Lean 4 refinement proof (induction over programs and read schedules) + accounting lemmas + differential correspondence over chunk schedules behind a counting reader", "6/C10"),
-    "C11": chk("Proof. short_input_never_succeeds / cut_is_error (any stream cut before the end of the frame it declares makes Decode and CheckIntegrity fail, for both ways of ending and any read schedule), header_cut_is_error (every entry point), chained_cut_is_error (DecodeChained never returns silently unless the input ends exactly on a file boundary; a reader error is never swallowed), failed reads map to unexpected-EOF / reader error / format error, early exits are never successes. Partial files returned with the error are compared with the model's on every cut and fault offset by the harness." + CORR,
+    "C11": chk("Proof. short_input_never_succeeds / cut_is_error (any stream cut before the end of the frame it declares makes Decode and CheckIntegrity fail, for both ways of ending and any read schedule), header_cut_is_error (every entry point), chained_cut_is_error (DecodeChained never returns silently unless the input ends exactly on a file boundary; a reader error is never swallowed), failed reads map to unexpected-EOF / reader error / format error, early exits are never successes; partial_file_on_cut (a frame cut inside a record, ended by EOF or a reader error under any read schedule: Decode returns an error, never panics, and the File it returns has exactly the file_id, file_creator, timestamp_correlation, container and slots the record machine holds after the complete records — nothing of the cut record; proved through DProg.bind / loop_step: the loop is one record then the loop, ExitsKeep: every early exit of one record carries the File as it was, and cut_record: a strict prefix of a record's bytes cannot complete it). Partial files are also compared with the model's on every cut and fault offset by the harness, and an oracle checks that the File does not depend on whether the reader delivers its error with the last bytes or in a call of its own." + CORR,
                "Lean 4 proof (exact-consumption and conservation lemmas over the specification interpreter, refinement for the buffered run) + exhaustive cut/fault enumeration per stream", "6/C11"),
     "C12": chk("Proof: compressed_rule (5-bit offset with 32 s rollover = tsSpec), compressed_keeps_inv, run_accumulates (any run of compressed records = scan of tsSpec), datetime_decode, explicit_rebases, reference_only_from_timestamp_field, local_wallclock, no_reference_skips — about the functions the decoder model and the record machine call for every time field and compressed header." + CORR,
                "Lean 4 proof (omega on modular arithmetic, induction over offset lists) + differential correspondence of timestamp sequences", "6/C12"),
@@ -45,7 +45,7 @@ CHECKS.update({
                "Lean 4 decide +kernel over tables regenerated by reflection on every run + workbook / snapshot comparison + differential correspondence of every profile entry", "6/C15"),
     "C16": chk("Proof: options_transparent (error, panic, bytes pulled, File apart from the two lists, accumulators are identical under every option set — the decoder program does not take the options), logger_irrelevant, lists_only_when_asked, bump_counts (reported count = number of occurrences counted), bump_keys_nodup, unknown_lists_sorted (insertion sort is sorted and a permutation)." + CORR,
                "Lean 4 proof (structure of finalize, counting and sorting lemmas) + differential correspondence under all 8 option sets", "6/C16"),
-    "C18": chk("Partial proof with recorded findings. Proved: invalid_source_untouched, valid_source_copied, csd_speed_slice, csd_distance_partial, accumulate_spec, gear_bytes, score_halves, containers_expand, expand_eq_rules_lap_session_segment (the transcribed expansion equals the generic interpretation of the profile's component rules for lap, session and segment_lap); counterexample theorems for the known findings D10, D11, D12. For record and event the equality with the rule-driven specification is evaluated per decoded message on every run and every deviation must be one of the recorded ones." + CORR,
+    "C18": chk("Proof with recorded findings. expand_eq_spec: for every message of any type whose component sources hold the kinds of value the decoder stores (typedB, decidable), the statement-by-statement model of the generated expandComponents equals the generic, rule-driven interpretation of the profile's component rules with exactly the deviations D10 (distance half of compressed_speed_distance loses its top nibble) and D11 (total_cycles / accumulated_power accumulators with mask 0) switched on — message and accumulators alike, for record (record_eq), event (event_eq), lap, session and segment_lap; nothing else separates the code from the rules. Also invalid_source_untouched, valid_source_copied, csd_speed_slice, csd_distance_partial, accumulate_spec, gear_bytes, score_halves, containers_expand, and counterexample theorems for the known findings D10, D11, D12 (accumulator lifetime). The specification is also replayed per decoded message on every run and every deviation must be one of the recorded ones." + CORR,
                "Lean 4 proof + counterexample theorems + rule-driven specification replay + differential correspondence incl. source-value sweeps", "6/C18"),
 })
 
